@@ -187,6 +187,10 @@ fn api_write_parse(ev: &mut Ev, d: &gd::ApiDoc) -> CaseResult {
     }
     let mut cur = DocModel::default();
     let mut di = match &d.base {
+        None if d.order.len() % 2 == 1 => {
+            ev.count("api/from-default");
+            Distinfo::default()
+        }
         None => Distinfo::new(),
         Some(b) => {
             ev.count("api/parsed-base-then-insert");
